@@ -13,11 +13,13 @@ theorem C37_counter_exact (es : List Ev) :
     (runEvs {} es).counter = ((runEvs {} es).zero : Int) :=
   (run_inv es {} rfl (Or.inr (Nat.zero_le _))).1
 
-/-- **the check runs in every iteration** (regenerated fact): in the current server.go the comparison
-    `queuedControlFrames > maxQueuedControlFrames()` followed by `return` is the last statement of serve()'s
-    `for` body, directly after the `select` — not inside the handling of one kind of event or of one
-    outcome (e.g. only for frames processed without error).  If it is moved this theorem no longer
-    builds, and the model's `step = check ∘ body` no longer describes the code. -/
+/-- **the check runs in every iteration** (regenerated fact, extracted semantically: through helper
+    calls, local variables holding the limit, either comparison direction, `if over {return}` or
+    `if !over {continue}; return`): in the current sources the statements that follow the `select` of
+    serve()'s event loop compare `queuedControlFrames` with the limit and can return — the check is not
+    inside the handling of one kind of event or of one outcome (e.g. only frames processed without error).
+    If it is moved out of the loop tail this theorem no longer builds, and the model's
+    `step = check ∘ body` no longer describes the code (the correspondence run then finds the input). -/
 theorem C37_check_every_iteration : checkEveryIteration = true := by decide
 
 /-- **bounded**: the limit check runs at the end of EVERY serve-loop iteration — whether the frame was
